@@ -103,7 +103,9 @@ def fill_scales_for_dyadic_pyramid(info, target_chunk_size=64,
                                           key_unit)
 
         max_delay = max(axis_level_delays)
-        anisotropy_factors = [max(0, max_delay - delay - scale_level)
+        # An axis is only downscaled from level 'delay' onwards, its voxel
+        # size (hence its share of the chunk) does not change before that.
+        anisotropy_factors = [max(0, max_delay - max(delay, scale_level))
                               for delay in axis_level_delays]
         sum_anisotropy_factors = sum(anisotropy_factors)
 
